@@ -52,10 +52,10 @@ type c22Env struct {
 	encs *encoder.Encoders
 	enc  encoder.Encoder
 	ops  [c22NOps]base.Operation
-	fact [c22NOps]int       // fact number (0..2) of op i
-	id   map[string]int     // op hash string -> op index
-	fid  map[string]int     // fact hash string -> fact number
-	evs  []string           // event alphabet, fixed order
+	fact [c22NOps]int   // fact number (0..2) of op i
+	id   map[string]int // op hash string -> op index
+	fid  map[string]int // fact hash string -> fact number
+	evs  []string       // event alphabet, fixed order
 }
 
 func c22NewEnv(t *testing.T) *c22Env {
